@@ -188,7 +188,11 @@ def corr_malformed(ctx, S):
         pcls = "negp" if p < 0 else ("tinyp" if p < 5 else ("prime" if p in (5, 7, 11, 13, 17) else "composite"))
         on = plane_points(c, p)
         # a second curve for the "different curve" operands
-        p2, a2, b2 = rng.choice([(p, a + 1, b), (p, a, b + 1), (7 if abs(p) != 7 else 11, a, b), (p, a + p, b)])
+        # ... including parameters whose Python hash() COLLIDES with the first curve's (hash(-1) == hash(-2); ints that differ by
+        # 2^61 - 1 hash alike on 64-bit CPython): a curve comparison by cached hash instead of by value confuses exactly these
+        M61 = (1 << 61) - 1
+        p2, a2, b2 = rng.choice([(p, a + 1, b), (p, a, b + 1), (7 if abs(p) != 7 else 11, a, b), (p, a + p, b),
+                                 (p, a - M61, b), (p, a, b + M61), (p, -2 if a == -1 else a + M61, -2 if b == -1 else b)])
         c2 = K.curve_of(p2, a2, b2)
         on2 = plane_points(c2, p2)
 
